@@ -181,11 +181,18 @@ class DIMSEMessage(object):
         :type pc_id: int
         :param max_pdu_length: maximum PDU length
         :type max_pdu_length: int
-        :yield: P-DATA-TF PDUs
-        :rtype: pdu.PDataTfPDU
+        :return: generator of P-DATA-TF PDUs
+        :rtype: Iterator[pdu.PDataTfPDU]
         """
+        # The message is encoded now; only the fragmentation is lazy. The returned generator is
+        # consumed later by the provider thread, by which time the caller may already have changed
+        # this object (service providers reuse one response object for several responses).
         encoded_command_set = dsutils.encode(self.command_set, True, True)
+        data_set = self.data_set
+        return self._fragments(encoded_command_set, data_set, pc_id, max_pdu_length)
 
+    @staticmethod
+    def _fragments(encoded_command_set, data_set, pc_id, max_pdu_length):
         # fragment command set
         for item, bit in fragment(encoded_command_set, max_pdu_length, 1, 3):
             # send only one pdv per p-data primitive
@@ -193,22 +200,22 @@ class DIMSEMessage(object):
             yield pdu.PDataTfPDU([value_item])
 
         # fragment data set
-        if self.data_set:
-            if isinstance(self.data_set, bytes):
+        if data_set:
+            if isinstance(data_set, bytes):
                 # got dataset as byte array
                 is_file = False
-                gen = fragment(self.data_set, max_pdu_length, 0, 2)
+                gen = fragment(data_set, max_pdu_length, 0, 2)
             else:
                 # assume that dataset is in file-like object
                 is_file = True
-                gen = fragment_file(self.data_set, max_pdu_length, 0, 2)
+                gen = fragment_file(data_set, max_pdu_length, 0, 2)
             try:
                 for item, bit in gen:
                     value_item = pdu.PresentationDataValueItem(pc_id, struct.pack('b', bit) + item)
                     yield pdu.PDataTfPDU([value_item])
             finally:
                 if is_file:
-                    self.data_set.close()  # type: ignore
+                    data_set.close()  # type: ignore
 
     def set_length(self):
         """Sets DIMSE message length attribute in command dataset"""
